@@ -2,6 +2,7 @@ CONSTANTS
  Scenario = 4
  InitTtl = "none"
  Variant = "code"
+ GetdelBlocking = TRUE
  OwnerSwitch = "sync"
  Ops <- MCOps
  Kind <- MCKind
